@@ -675,6 +675,9 @@ pub async fn process_fully_buffered_changes(
             })?;
 
             bookedw.commit_snapshot(snap);
+            // the version is applied now: it is no longer partial (its buffered rows get
+            // cleared), later chunks of it are duplicates
+            bookedw.partials.remove(&version);
 
             Ok::<_, ChangeError>(rows_impacted > 0)
         })
